@@ -63,7 +63,7 @@ def run(ctx):
     }, assumptions=[
         "bytes are positions in the model; byte equality of the replayed stream is checked by the harness against what it sent",
         "FragmentedHello (ClientHello continued in a second TLS record) and CapExit (first record ending at or beyond 16 KiB) are reported absent by the code; the statement allows absent, the specification names both",
-        "QUIC clause (random of the completed handshake) not exercised: no QUIC client is available to the harness",
+        "QUIC clause: exercised by the QUIC endpoint job (hello sizes of 1..3 Initial packets, thorough ~6) with a quiche client; segmentation of the CRYPTO stream inside packets is whatever quiche produces",
         "real hellos come from rustls 0.21 only; other stacks are represented by synthetic padding / key-share / fragmentation",
         "trusted: TLC, the hello surgery of the harness (checked against TLC's record description before use), doors verif::hello, hooks in tls_listener.rs",
     ])
